@@ -1,7 +1,7 @@
 (** Invariance of meaning (property C18): layout, digit script, operator synonyms,
     parentheses, dead code. *)
 From Borno Require Import Base Num Unicode Token Lexer Ast Parser Value Eval Cli.
-From Borno Require Import EvalEqs ParserEqs EvalMeta EvalOrder LexerFacts LexerLayout NumInt NumFacts.
+From Borno Require Import EvalEqs ParserEqs ParserTotal EvalMeta EvalOrder LexerFacts LexerLayout NumInt NumFacts.
 Open Scope N_scope.
 
 (* ------------------------------------------------------------------ *)
@@ -153,13 +153,23 @@ Proof.
   cbn [ik iline itext]. split; [exact K|]. split; [reflexivity|]. split; reflexivity.
 Qed.
 
-(** e.g. "১২.৫", "12.5" and "১2.৫" are one token *)
-Example script_example :
-  map (fun t => (tk t, tlit t)) (lx_tokens (lex [2535;2536;46;2539])) =
-  map (fun t => (tk t, tlit t)) (lx_tokens (lex [49;50;46;53])) /\
-  map (fun t => (tk t, tlit t)) (lx_tokens (lex [2535;50;46;2539])) =
-  map (fun t => (tk t, tlit t)) (lx_tokens (lex [49;50;46;53])).
-Proof. vm_compute. split; reflexivity. Qed.
+(** e.g. "১২.৫" and "12.5" are one NUMBER token (or both the same bad number) *)
+Example script_example : exists it it',
+  scan1 [2535;2536;46;2539] 1 = Some (it, [], 1) /\ scan1 [49;50;46;53] 1 = Some (it', [], 1) /\
+  ik it = ik it'.
+Proof.
+  assert (D : forall c d, (is_digit c && is_digit d && (translit c =? translit d)) = true -> same_digit c d).
+  { intros c d H. apply andb_prop in H. destruct H as (H & H3). apply andb_prop in H. destruct H as (H1 & H2).
+    apply N.eqb_eq in H3. unfold same_digit. auto. }
+  destruct (scan1_number_script_invariant 2535 49 [2536] [50] [46;2539] [46;53] [] 1)
+    as (it & it' & E1 & E2 & K & _).
+  - apply D. vm_compute. reflexivity.
+  - constructor; [apply D; vm_compute; reflexivity|constructor].
+  - right. exists [2539], [53]. split; [reflexivity|]. split; [reflexivity|]. split; [discriminate|].
+    constructor; [apply D; vm_compute; reflexivity|constructor].
+  - split; [reflexivity|]. intros C. discriminate C.
+  - exists it, it'. split; [exact E1|]. split; [exact E2|exact K].
+Qed.
 
 (* ------------------------------------------------------------------ *)
 (** * 3. Synonyms: the symbol and the word lex to the same kind *)
@@ -188,3 +198,545 @@ Example or_synonym :
   map sig3 (lx_tokens (lex [97;32;124;124;32;98])) = map sig3 (lx_tokens (lex [97;32;2476;2494;32;98])) /\
   map tk (lx_tokens (lex [97;32;124;124;32;98])) = [TIDENTIFIER; TLOGICAL_OR; TIDENTIFIER].
 Proof. vm_compute. split; reflexivity. Qed.
+
+(* ------------------------------------------------------------------ *)
+(** * small list facts about scopes (kept local: no dependency on the scope-law files) *)
+
+Lemma nth_set_nth_same {A} (x : A) : forall l n, (n < length l)%nat -> nth_error (set_nth n x l) n = Some x.
+Proof.
+  induction l as [|y l IH]; intros n H; simpl in H; [lia|].
+  destruct n as [|n]; simpl; [reflexivity|]. apply IH. lia.
+Qed.
+
+Lemma nth_set_nth_other {A} (x : A) : forall l n m, m <> n -> nth_error (set_nth n x l) m = nth_error l m.
+Proof.
+  induction l as [|y l IH]; intros n m H; simpl; [destruct n; reflexivity|].
+  destruct n as [|n], m as [|m]; simpl; try reflexivity; [exfalso; apply H; reflexivity|].
+  apply IH. intros C. apply H. f_equal. exact C.
+Qed.
+
+Lemma set_nth_len {A} (x : A) : forall l n, length (set_nth n x l) = length l.
+Proof. induction l as [|y l IH]; intros n; [destruct n; reflexivity|]. destruct n; simpl; [reflexivity|]. f_equal. apply IH. Qed.
+
+Lemma str_eqb_true_eq : forall a b : list N, str_eqb a b = true -> a = b.
+Proof.
+  induction a as [|x a IHa]; intros [|y b] Hab; simpl in Hab; try discriminate Hab; [reflexivity|].
+  apply andb_prop in Hab. destruct Hab as (H1 & H2). apply N.eqb_eq in H1. subst y. f_equal. apply IHa. exact H2.
+Qed.
+
+Lemma str_eqb_same : forall a : list N, str_eqb a a = true.
+Proof. induction a as [|x a IHa]; simpl; [reflexivity|]. rewrite N.eqb_refl. exact IHa. Qed.
+
+Lemma assoc_set_other {A} k (v : A) : forall l k', str_eqb k' k = false -> assoc k' (alist_set k v l) = assoc k' l.
+Proof.
+  induction l as [|[k0 v0] l IH]; intros k' H; simpl.
+  - rewrite H. reflexivity.
+  - destruct (str_eqb k k0) eqn:E; simpl.
+    + destruct (str_eqb k' k0) eqn:E2; [|reflexivity].
+      exfalso. apply str_eqb_true_eq in E. apply str_eqb_true_eq in E2. subst k0 k'.
+      rewrite str_eqb_same in H. discriminate H.
+    + destruct (str_eqb k' k0); [reflexivity|]. apply IH. exact H.
+Qed.
+
+Lemma assoc_set_same {A} k (v : A) : forall l, assoc k (alist_set k v l) = Some v.
+Proof.
+  induction l as [|[k0 v0] l IH]; simpl.
+  - rewrite str_eqb_same. reflexivity.
+  - destruct (str_eqb k k0) eqn:E; simpl; rewrite E; [reflexivity|exact IH].
+Qed.
+
+Section Inv.
+Variable libm : N -> f64 -> f64 -> f64.
+Variable clock : f64.
+Variable sched : N -> list (list N * value) -> list (list N * value).
+
+Notation eval := (Eval.eval libm clock sched).
+Notation eval_list := (Eval.eval_list libm clock sched).
+Notation eval_props := (Eval.eval_props libm clock sched).
+Notation exec := (Eval.exec libm clock sched).
+Notation exec_var := (Eval.exec_var libm clock sched).
+Notation exec_vars := (Eval.exec_vars libm clock sched).
+Notation exec_list := (Eval.exec_list libm clock sched).
+Notation exec_while := (Eval.exec_while libm clock sched).
+Notation exec_for := (Eval.exec_for libm clock sched).
+Notation run_stmts := (Eval.run_stmts libm clock sched).
+
+(* ------------------------------------------------------------------ *)
+(** * 4. Parentheses are transparent *)
+
+Theorem group_transparent f e line rho s : eval (S f) (EGroup e line) rho s = eval f e rho s.
+Proof. apply EvalOrder.group_transparent. Qed.
+
+(** whatever [e] evaluates to, [(e)] evaluates to, one unit of fuel later *)
+Corollary group_same_result f e line rho s r :
+  eval f e rho s = r -> r <> Fuel -> eval (S f) (EGroup e line) rho s = r.
+Proof. intros E _. rewrite group_transparent. exact E. Qed.
+
+(** up to fuel, [e] and [(e)] have the same results *)
+Corollary group_same_result_iff e line rho s r : r <> Fuel ->
+  ((exists f, eval f (EGroup e line) rho s = r) <-> (exists f, eval f e rho s = r)).
+Proof.
+  intros NF. split; intros (f & E).
+  - destruct f as [|f]; [rewrite eval_0 in E; exfalso; apply NF; symmetry; exact E|].
+    rewrite group_transparent in E. eauto.
+  - exists (S f). rewrite group_transparent. exact E.
+Qed.
+
+(** with one common budget: *)
+Corollary group_same_result_mono f e line rho s r :
+  eval f (EGroup e line) rho s = r -> r <> Fuel -> eval f e rho s = r.
+Proof.
+  intros E NF. destruct f as [|f]; [rewrite eval_0 in E; exfalso; apply NF; symmetry; exact E|].
+  rewrite group_transparent in E. eapply eval_mono; [|exact E|exact NF]. lia.
+Qed.
+
+(* ------------------------------------------------------------------ *)
+(** * 6. Dead code *)
+
+(** a conditional whose test is false does not run its then-branch, whatever it is *)
+Theorem dead_if_false f rp c t rho s cv s1 :
+  eval f c rho s = Ok cv s1 -> truthy cv = false ->
+  exec (S f) rp (SIf c t None) rho s = Ok SigNone s1.
+Proof. intros E T. rewrite exec_S, E. cbn [bind]. rewrite T. reflexivity. Qed.
+
+Theorem dead_if_false_else f rp c t e' rho s cv s1 :
+  eval f c rho s = Ok cv s1 -> truthy cv = false ->
+  exec (S f) rp (SIf c t (Some e')) rho s = exec f rp e' rho s1.
+Proof. intros E T. rewrite exec_S, E. cbn [bind]. rewrite T. reflexivity. Qed.
+
+(** ... so the then-branch can be replaced by any statement *)
+Corollary dead_then_irrelevant f rp c t t' e rho s cv s1 :
+  eval f c rho s = Ok cv s1 -> truthy cv = false ->
+  exec (S f) rp (SIf c t e) rho s = exec (S f) rp (SIf c t' e) rho s.
+Proof. intros E T. rewrite !exec_S, E. cbn [bind]. rewrite T. reflexivity. Qed.
+
+(** and symmetrically for the else-branch of a true test *)
+Theorem dead_else_true f rp c t e rho s cv s1 :
+  eval f c rho s = Ok cv s1 -> truthy cv = true ->
+  exec (S f) rp (SIf c t e) rho s = exec f rp t rho s1.
+Proof. intros E T. rewrite exec_S, E. cbn [bind]. rewrite T. reflexivity. Qed.
+
+(** statements after an executed return are not run *)
+Theorem dead_after_return rp f ss1 rho s l v s' :
+  exec_list f rp ss1 rho s = Ok (SigReturn l v) s' ->
+  forall ss2, exec_list f rp (ss1 ++ ss2) rho s = Ok (SigReturn l v) s'.
+Proof. intros H ss2. eapply exec_list_skips_after_signal; [exact H|discriminate]. Qed.
+
+(** in particular right after the return statement itself *)
+Corollary dead_after_return_stmt rp f kw ve rho s v s' ss2 :
+  exec f rp (SReturn kw ve) rho s = Ok (SigReturn kw v) s' ->
+  exec_list (S f) rp (SReturn kw ve :: ss2) rho s = Ok (SigReturn kw v) s'.
+Proof. intros H. rewrite exec_list_S, H. reflexivity. Qed.
+
+(** Declaring a function only allocates: one closure, one (empty) scope, and the
+    binding of its name in the current scope.  Nothing is printed or read, no
+    array or object changes, and every other binding of every scope is as before;
+    the body is not looked at. *)
+Theorem dead_unreferenced_function f rp name ps body rho s b p :
+  nth_error (envs s) rho = Some (b, p) ->
+  exists s3,
+    exec (S f) rp (SFun name ps body) rho s = Ok SigNone s3 /\
+    out s3 = out s /\ inp s3 = inp s /\ arrs s3 = arrs s /\ objs s3 = objs s /\ tick s3 = tick s /\
+    funs s3 = funs s ++ [mkClo name ps body (length (envs s))] /\
+    length (envs s3) = S (length (envs s)) /\
+    nth_error (envs s3) (length (envs s)) = Some ([], Some rho) /\
+    nth_error (envs s3) rho = Some (alist_set name (VFun (length (funs s))) b, p) /\
+    (forall i, i <> rho -> (i < length (envs s))%nat -> nth_error (envs s3) i = nth_error (envs s) i) /\
+    env_get_here rho name s3 = Some (Some (VFun (length (funs s)))) /\
+    (forall x, str_eqb x name = false -> env_get_here rho x s3 = env_get_here rho x s).
+Proof.
+  intros E. assert (L : (rho < length (envs s))%nat) by (apply nth_error_Some; rewrite E; discriminate).
+  rewrite exec_S. unfold alloc_env, alloc_fun, env_define. cbn [envs funs arrs objs out inp tick].
+  rewrite nth_error_app1 by exact L. rewrite E.
+  eexists. split; [reflexivity|]. unfold set_envs. cbn [envs funs arrs objs out inp tick].
+  assert (L' : (rho < length (envs s ++ [([], Some rho)]))%nat) by (rewrite app_length; simpl; lia).
+  repeat (split; [reflexivity|]).
+  split; [rewrite set_nth_len, app_length; simpl; lia|].
+  split.
+  { rewrite nth_set_nth_other by lia. rewrite nth_error_app2 by lia. rewrite Nat.sub_diag. reflexivity. }
+  split; [apply nth_set_nth_same; exact L'|].
+  split.
+  { intros i Hi Hl. rewrite nth_set_nth_other by exact Hi. apply nth_error_app1. exact Hl. }
+  unfold env_get_here. cbn [envs]. rewrite (nth_set_nth_same _ _ _ L'), E.
+  split; [rewrite assoc_set_same; reflexivity|].
+  intros x Hx. rewrite (assoc_set_other _ _ _ _ Hx). reflexivity.
+Qed.
+
+(** two declarations that differ only in the body behave alike until the function is called *)
+Corollary dead_function_body_irrelevant f rp name ps body body' rho s s3 s3' :
+  exec (S f) rp (SFun name ps body) rho s = Ok SigNone s3 ->
+  exec (S f) rp (SFun name ps body') rho s = Ok SigNone s3' ->
+  envs s3 = envs s3' /\ arrs s3 = arrs s3' /\ objs s3 = objs s3' /\ out s3 = out s3' /\ inp s3 = inp s3' /\
+  tick s3 = tick s3' /\ length (funs s3) = length (funs s3').
+Proof.
+  rewrite !exec_S. unfold alloc_env, alloc_fun, env_define. cbn [envs funs arrs objs out inp tick].
+  destruct (nth_error (envs s ++ [([], Some rho)]) rho) as [[b p]|]; [|discriminate].
+  intros H H'. inversion H; inversion H'; subst. unfold set_envs. cbn [envs funs arrs objs out inp tick].
+  rewrite !app_length. repeat (split; [reflexivity|]). reflexivity.
+Qed.
+
+End Inv.
+
+(* ------------------------------------------------------------------ *)
+(** * 3b. The parser never looks at the lexeme of a non-identifier token *)
+
+(** two tokens with the same kind, literal and line, and -- for identifiers -- the same lexeme *)
+Definition same_sig (t t' : token) : Prop :=
+  tk t = tk t' /\ tlit t = tlit t' /\ tline t = tline t' /\ (tk t = TIDENTIFIER -> tlex t = tlex t').
+
+(** a diagnostic without the lexeme it quotes *)
+Definition pd_sig (d : pdiag) : N * pkind := (pd_line d, pd_kind d).
+Definition sameds (ds ds' : list pdiag) : Prop := map pd_sig ds = map pd_sig ds'.
+
+Lemma sameds_app a a' b b' : sameds a a' -> sameds b b' -> sameds (a ++ b) (a' ++ b').
+Proof. unfold sameds. intros H1 H2. rewrite !map_app, H1, H2. reflexivity. Qed.
+
+Lemma sameds_nil : sameds [] [].
+Proof. reflexivity. Qed.
+
+(** results related: same shape, related values, related rests, same diagnostics up to lexemes *)
+Definition rel {A} (RA : A -> A -> Prop) (r r' : pres A) : Prop :=
+  match r, r' with
+  | POk a rest ds, POk a' rest' ds' => RA a a' /\ Forall2 same_sig rest rest' /\ sameds ds ds'
+  | PErr ds, PErr ds' => sameds ds ds'
+  | PFuel, PFuel => True
+  | _, _ => False
+  end.
+
+Lemma rel_bind {A B} (RA : A -> A -> Prop) (RB : B -> B -> Prop) (r r' : pres A) (k k' : A -> list token -> pres B) :
+  rel RA r r' ->
+  (forall a a' rest rest', RA a a' -> Forall2 same_sig rest rest' -> rel RB (k a rest) (k' a' rest')) ->
+  rel RB (pbind r k) (pbind r' k').
+Proof.
+  intros H K. destruct r as [a rest ds|ds|], r' as [a' rest' ds'|ds'|]; simpl in H |- *; try contradiction; try exact H.
+  destruct H as (Ha & Hr & Hd). specialize (K a a' rest rest' Ha Hr).
+  destruct (k a rest) as [b r2 d2|d2|], (k' a' rest') as [b' r2' d2'|d2'|]; simpl in K |- *; try contradiction; try exact I.
+  - destruct K as (Kb & Kr & Kd). split; [exact Kb|]. split; [exact Kr|]. apply sameds_app; assumption.
+  - apply sameds_app; assumption.
+Qed.
+
+Lemma rel_ok {A} (RA : A -> A -> Prop) a a' r r' : RA a a' -> Forall2 same_sig r r' -> rel RA (POk a r []) (POk a' r' []).
+Proof. intros H1 H2. simpl. split; [exact H1|]. split; [exact H2|reflexivity]. Qed.
+
+Lemma Forall2_tl_sig r r' : Forall2 same_sig r r' -> Forall2 same_sig (tl r) (tl r').
+Proof. intros H. destruct H; simpl; [constructor|assumption]. Qed.
+
+Lemma same_sig_refl t : same_sig t t.
+Proof. unfold same_sig. auto. Qed.
+
+Lemma same_sig_sym t t' : same_sig t t' -> same_sig t' t.
+Proof.
+  intros (H1 & H2 & H3 & H4). unfold same_sig.
+  split; [symmetry; exact H1|]. split; [symmetry; exact H2|]. split; [symmetry; exact H3|].
+  intros K. symmetry. apply H4. rewrite H1. exact K.
+Qed.
+
+Section Lexeme.
+Variable eofl : N.
+
+Notation pexpr := (Parser.pexpr eofl).
+Notation plevel := (Parser.plevel eofl).
+Notation ploop := (Parser.ploop eofl).
+Notation punary := (Parser.punary eofl).
+Notation pcallloop := (Parser.pcallloop eofl).
+Notation pargs := (Parser.pargs eofl).
+Notation pprimary := (Parser.pprimary eofl).
+Notation pprops := (Parser.pprops eofl).
+Notation pvardecls := (Parser.pvardecls eofl).
+Notation pparams := (Parser.pparams eofl).
+Notation pdecl := (Parser.pdecl eofl).
+Notation pstmt := (Parser.pstmt eofl).
+Notation pblock := (Parser.pblock eofl).
+Notation pprogram := (Parser.pprogram eofl).
+Notation pvar := (Parser.pvar eofl).
+Notation pexprstmt := (Parser.pexprstmt eofl).
+Notation consume := (Parser.consume eofl).
+Notation consume_lenient := (Parser.consume_lenient eofl).
+Notation perr_at := (Parser.perr_at eofl).
+Notation diag_at := (Parser.diag_at eofl).
+Notation peek_line := (Parser.peek_line eofl).
+
+Lemma check_sig k r r' : Forall2 same_sig r r' -> check k r' = check k r.
+Proof. intros H. destruct H as [|t t' r r' (Hk & _) _]; simpl; [reflexivity|]. rewrite Hk. reflexivity. Qed.
+
+Lemma peek_line_sig r r' : Forall2 same_sig r r' -> peek_line r' = peek_line r.
+Proof. intros H. destruct H as [|t t' r r' (_ & _ & Hn & _) _]; simpl; [reflexivity|]. symmetry. exact Hn. Qed.
+
+Lemma diag_at_sig k r r' : Forall2 same_sig r r' -> pd_sig (diag_at r k) = pd_sig (diag_at r' k).
+Proof. intros H. destruct H as [|t t' r r' (_ & _ & Hn & _) _]; simpl; [reflexivity|]. unfold pd_sig. simpl. rewrite Hn. reflexivity. Qed.
+
+Lemma rel_perr_at {A} (RA : A -> A -> Prop) k r r' : Forall2 same_sig r r' -> rel RA (perr_at r k) (perr_at r' k).
+Proof. intros H. unfold Parser.perr_at. simpl. unfold sameds. simpl. rewrite (diag_at_sig k r r' H). reflexivity. Qed.
+
+Lemma rel_consume k pk r r' : Forall2 same_sig r r' ->
+  rel (fun t t' => same_sig t t' /\ tk t = k) (consume k pk r) (consume k pk r').
+Proof.
+  intros H. pose proof (rel_perr_at (fun t t' => same_sig t t' /\ tk t = k) pk r r' H) as E.
+  destruct H as [|t t' r r' Ht Hr]; [exact E|].
+  unfold Parser.consume. pose proof Ht as (Hk & _). rewrite <- Hk.
+  destruct (tkind_eqb (tk t) k) eqn:K; [|exact E].
+  simpl. split; [|split; [exact Hr|reflexivity]]. split; [exact Ht|].
+  unfold tkind_eqb in K. apply N.eqb_eq in K.
+  destruct (tk t), k; try reflexivity; discriminate K.
+Qed.
+
+Lemma rel_lenient {A} k pk (a : A) r r' : Forall2 same_sig r r' ->
+  rel eq (let '(r2, ds) := consume_lenient k pk r in POk a r2 ds)
+         (let '(r2, ds) := consume_lenient k pk r' in POk a r2 ds).
+Proof.
+  intros H. pose proof (diag_at_sig pk r r' H) as D.
+  destruct H as [|t t' r r' Ht Hr]; simpl.
+  - split; [reflexivity|]. split; [constructor|reflexivity].
+  - pose proof Ht as (Hk & _). rewrite <- Hk. destruct (tkind_eqb (tk t) k).
+    + split; [reflexivity|]. split; [exact Hr|reflexivity].
+    + split; [reflexivity|]. split; [constructor; assumption|]. unfold sameds. simpl. simpl in D. rewrite D. reflexivity.
+Qed.
+
+
+(** open a [same_sig] fact: rewrite the fields of the primed token into those of the other *)
+Ltac open_sig Ht :=
+  let Hk := fresh "Hk" in let Hl := fresh "Hl" in let Hn := fresh "Hn" in let Hx := fresh "Hx" in
+  pose proof Ht as (Hk & Hl & Hn & Hx);
+  rewrite <- ?Hk, <- ?Hl, <- ?Hn.
+
+Ltac ident_fix :=
+  repeat match goal with
+  | Hx : tk ?t = TIDENTIFIER -> tlex ?t = tlex ?t', K : tk ?t = TIDENTIFIER |- _ =>
+      rewrite <- ?(Hx K); clear Hx
+  | Hx : TIDENTIFIER = TIDENTIFIER -> tlex ?t = tlex ?t' |- _ =>
+      rewrite <- ?(Hx eq_refl); clear Hx
+  end.
+
+Ltac side := first [ assumption | apply Forall2_tl_sig; assumption | constructor; assumption ].
+
+Ltac use_rests :=
+  repeat match goal with
+  | HR : Forall2 same_sig ?r ?r' |- context [check ?k ?r'] => rewrite (check_sig k r r' HR)
+  | HR : Forall2 same_sig ?r ?r' |- context [peek_line ?r'] => rewrite (peek_line_sig r r' HR)
+  end.
+
+Ltac rel_leaf :=
+  first
+  [ exact I
+  | match goal with IH : forall _, _ |- rel _ _ _ => apply IH; side end
+  | apply rel_consume; side
+  | apply rel_perr_at; side
+  | apply rel_lenient; side
+  | apply rel_ok; [ first [reflexivity | split; [assumption|reflexivity] ] | side ]
+  | solve [ simpl; unfold sameds, pd_sig, diag_tok; simpl; first [reflexivity | congruence] ]
+  | solve [ simpl; split; [reflexivity|]; split; [side|]; unfold sameds, pd_sig, diag_tok; simpl; first [reflexivity | congruence] ] ].
+
+(** continuation of a bind: name the related values and rests, normalise the primed side *)
+Ltac open_ra HA :=
+  first
+  [ match type of HA with ?a = ?b => subst b end
+  | let Hs := fresh "Hs" in let K := fresh "K" in
+    destruct HA as (Hs & K); open_sig Hs; ident_fix ].
+
+Ltac rel_step :=
+  cbv zeta;
+  match goal with
+  | |- rel _ (pbind _ _) (pbind _ _) =>
+      let a := fresh "a" in let a' := fresh "a'" in let r := fresh "r" in let r' := fresh "r'" in
+      let HA := fresh "HA" in let HR := fresh "HR" in
+      first [ eapply rel_bind; [ solve [rel_leaf] | intros a a' r r' HA HR; open_ra HA; use_rests ]
+            | eapply (rel_bind eq); [ | intros a a' r r' HA HR; open_ra HA; use_rests ] ]
+  | HR : Forall2 same_sig ?x ?y |- rel _ (match ?x with _ => _ end) (match ?y with _ => _ end) =>
+      let t := fresh "t" in let t' := fresh "t'" in let r := fresh "r" in let r' := fresh "r'" in
+      let Ht := fresh "Ht" in let Hr := fresh "Hr" in
+      destruct HR as [|t t' r r' Ht Hr]; [ | open_sig Ht; use_rests ]
+  | |- rel _ (match ?x with _ => _ end) (match ?x with _ => _ end) =>
+      let K := fresh "K" in destruct x eqn:K; ident_fix
+  | |- rel _ (if ?x then _ else _) (if ?x then _ else _) =>
+      let K := fresh "K" in destruct x eqn:K; ident_fix
+  | |- rel _ _ _ => rel_leaf
+  end.
+
+Ltac rel_go := use_rests; repeat rel_step.
+
+Definition ExprRel (f : nat) : Prop :=
+  (forall ts ts', Forall2 same_sig ts ts' -> rel eq (pexpr f ts) (pexpr f ts')) /\
+  (forall lv ts ts', Forall2 same_sig ts ts' -> rel eq (plevel f lv ts) (plevel f lv ts')) /\
+  (forall l lv e ts ts', Forall2 same_sig ts ts' -> rel eq (ploop f l lv e ts) (ploop f l lv e ts')) /\
+  (forall ts ts', Forall2 same_sig ts ts' -> rel eq (punary f ts) (punary f ts')) /\
+  (forall e ts ts', Forall2 same_sig ts ts' -> rel eq (pcallloop f e ts) (pcallloop f e ts')) /\
+  (forall ts ts', Forall2 same_sig ts ts' -> rel eq (pargs f ts) (pargs f ts')) /\
+  (forall ts ts', Forall2 same_sig ts ts' -> rel eq (pprimary f ts) (pprimary f ts')) /\
+  (forall acc ts ts', Forall2 same_sig ts ts' -> rel eq (pprops f acc ts) (pprops f acc ts')).
+
+Lemma expr_rel_all : forall f, ExprRel f.
+Proof.
+  induction f as [|f IH].
+  - unfold ExprRel. repeat split; intros; exact I.
+  - destruct IH as (Ie & Il & Ilo & Iu & Ic & Ia & Ipr & Ipp).
+    unfold ExprRel. split; [|split; [|split; [|split; [|split; [|split; [|split]]]]]].
+    + intros ts ts' H. rewrite !pexpr_S. rel_go.
+    + intros lv ts ts' H. rewrite !plevel_S. rel_go.
+    + intros l lv e ts ts' H. rewrite !ploop_S. unfold mk_bin. rel_go.
+    + intros ts ts' H. rewrite !punary_S. rel_go.
+    + intros e ts ts' H. rewrite !pcallloop_S. rel_go.
+    + intros ts ts' H. rewrite !pargs_S. rel_go.
+    + intros ts ts' H. rewrite !pprimary_S. rel_go.
+    + intros acc ts ts' H. rewrite !pprops_S. rel_go.
+Qed.
+
+Lemma pexpr_rel f ts ts' : Forall2 same_sig ts ts' -> rel eq (pexpr f ts) (pexpr f ts').
+Proof. apply (expr_rel_all f). Qed.
+
+Lemma pvardecls_rel : forall f l0 ts ts', Forall2 same_sig ts ts' -> rel eq (pvardecls f l0 ts) (pvardecls f l0 ts').
+Proof.
+  induction f as [|f IH]; intros l0 ts ts' H; [exact I|].
+  pose proof (pexpr_rel f) as Ie. specialize (IH l0).
+  rewrite !pvardecls_S. rel_go.
+Qed.
+
+Lemma pvar_rel f ts ts' : Forall2 same_sig ts ts' -> rel eq (pvar f ts) (pvar f ts').
+Proof.
+  intros H. pose proof (pvardecls_rel f) as Iv. unfold Parser.pvar. rel_go.
+Qed.
+
+Lemma pexprstmt_rel f ts ts' : Forall2 same_sig ts ts' -> rel eq (pexprstmt f ts) (pexprstmt f ts').
+Proof.
+  intros H. pose proof (pexpr_rel f) as Ie. unfold Parser.pexprstmt. rel_go.
+Qed.
+
+Lemma pparams_rel : forall f n ts ts', Forall2 same_sig ts ts' -> rel eq (pparams f n ts) (pparams f n ts').
+Proof.
+  induction f as [|f IH]; intros n ts ts' H; [exact I|].
+  rewrite !pparams_S. rel_go.
+Qed.
+
+Definition StmtRel (f : nat) : Prop :=
+  (forall ts ts', Forall2 same_sig ts ts' -> rel eq (pdecl f ts) (pdecl f ts')) /\
+  (forall ts ts', Forall2 same_sig ts ts' -> rel eq (pstmt f ts) (pstmt f ts')) /\
+  (forall ts ts', Forall2 same_sig ts ts' -> rel eq (pblock f ts) (pblock f ts')).
+
+Lemma stmt_rel_all : forall f, StmtRel f.
+Proof.
+  induction f as [|f IH].
+  - unfold StmtRel. repeat split; intros; exact I.
+  - destruct IH as (Id & Is & Ib).
+    pose proof (pexpr_rel f) as Ie. pose proof (pvar_rel f) as Iv.
+    pose proof (pexprstmt_rel f) as Ix. pose proof (pparams_rel f) as Ip.
+    unfold StmtRel. split; [|split].
+    + intros ts ts' H. rewrite !pdecl_S. rel_go.
+    + intros ts ts' H. rewrite !pstmt_S. rel_go.
+    + intros ts ts' H. rewrite !pblock_S. rel_go.
+Qed.
+
+Lemma pprogram_rel : forall f ts ts', Forall2 same_sig ts ts' -> rel eq (pprogram f ts) (pprogram f ts').
+Proof.
+  induction f as [|f IH]; intros ts ts' H; [exact I|].
+  pose proof (proj1 (stmt_rel_all f)) as Id.
+  rewrite !pprogram_S. rel_go.
+Qed.
+
+(** The parser never looks at the lexeme of a non-identifier token: on two token lists
+    that agree on kind, literal, line (and lexeme for identifiers) every parser
+    function returns the same tree, related rests, and the same diagnostics up to the
+    lexeme they quote. *)
+Theorem pexpr_lexeme_irrelevant f ts ts' :
+  Forall2 same_sig ts ts' ->
+  match pexpr f ts, pexpr f ts' with
+  | POk e rest ds, POk e' rest' ds' => e = e' /\ Forall2 same_sig rest rest' /\ map pd_sig ds = map pd_sig ds'
+  | PErr ds, PErr ds' => map pd_sig ds = map pd_sig ds'
+  | PFuel, PFuel => True
+  | _, _ => False
+  end.
+Proof. intros H. exact (pexpr_rel f ts ts' H). Qed.
+
+Theorem pprogram_lexeme_irrelevant f ts ts' :
+  Forall2 same_sig ts ts' ->
+  match pprogram f ts, pprogram f ts' with
+  | POk ss rest ds, POk ss' rest' ds' => ss = ss' /\ Forall2 same_sig rest rest' /\ map pd_sig ds = map pd_sig ds'
+  | PErr ds, PErr ds' => map pd_sig ds = map pd_sig ds'
+  | PFuel, PFuel => True
+  | _, _ => False
+  end.
+Proof. intros H. exact (pprogram_rel f ts ts' H). Qed.
+
+End Lexeme.
+
+Lemma Forall2_len {A B} (R : A -> B -> Prop) l l' : Forall2 R l l' -> length l = length l'.
+Proof. induction 1; simpl; [reflexivity|f_equal; assumption]. Qed.
+
+(** at the level of [parse]: the same tree (or none), the same diagnostics up to lexemes *)
+Theorem parse_lexeme_irrelevant ts ts' eofl :
+  Forall2 same_sig ts ts' ->
+  pr_prog (parse ts eofl) = pr_prog (parse ts' eofl) /\
+  map pd_sig (pr_diags (parse ts eofl)) = map pd_sig (pr_diags (parse ts' eofl)) /\
+  pr_fuel_out (parse ts eofl) = pr_fuel_out (parse ts' eofl).
+Proof.
+  intros H. unfold parse, parse_fuel. rewrite <- (Forall2_len _ _ _ H).
+  pose proof (pprogram_lexeme_irrelevant eofl (40 * (length ts + 2)) ts ts' H) as R.
+  destruct (pprogram eofl (40 * (length ts + 2)) ts) as [ss r ds|ds|],
+           (pprogram eofl (40 * (length ts + 2)) ts') as [ss' r' ds'|ds'|]; simpl; try contradiction.
+  - destruct R as (-> & _ & D). auto.
+  - auto.
+  - auto.
+Qed.
+
+(** a computable sufficient test for [Forall2 same_sig] *)
+Definition sig4 (t : token) : tkind * literal * N * list N :=
+  (tk t, tlit t, tline t, if tkind_eqb (tk t) TIDENTIFIER then tlex t else []).
+
+Lemma sig4_same_sig : forall ts ts', map sig4 ts = map sig4 ts' -> Forall2 same_sig ts ts'.
+Proof.
+  induction ts as [|t ts IH]; intros [|t' ts'] H; simpl in H; try discriminate H; constructor.
+  - inversion H as [[Hk Hl Hn Hx Hr]]. unfold same_sig. repeat (split; [assumption|]).
+    intros K. repeat rewrite <- Hk in Hx. rewrite K in Hx. exact Hx.
+  - apply IH. inversion H. reflexivity.
+Qed.
+
+Section LexemeRun.
+Variable libm : N -> f64 -> f64 -> f64.
+Variable clock : f64.
+Variable sched : N -> list (list N * value) -> list (list N * value).
+Variable fuel : nat.
+Notation run_source := (Cli.run_source libm clock sched fuel).
+
+(** Two texts whose token lists agree up to the lexemes of non-identifier tokens (for
+    instance [&&] written এবং) run alike: the same result -- state, output, runtime
+    diagnostic -- or, if they are rejected, the same syntax diagnostics up to the
+    lexeme quoted. *)
+Theorem lexeme_irrelevant_run rp a b stdin :
+  Forall2 same_sig (lx_tokens (lex a)) (lx_tokens (lex b)) ->
+  lx_eof_line (lex a) = lx_eof_line (lex b) ->
+  lx_diags (lex a) = [] -> lx_diags (lex b) = [] ->
+  match run_source rp a stdin, run_source rp b stdin with
+  | RFront ld pd, RFront ld' pd' => ld = [] /\ ld' = [] /\ map pd_sig pd = map pd_sig pd'
+  | r, r' => r = r'
+  end.
+Proof.
+  intros HT HE La Lb. unfold Cli.run_source. cbv zeta.
+  rewrite !parse_never_out_of_fuel, La, Lb, <- HE.
+  destruct (parse_lexeme_irrelevant _ _ (lx_eof_line (lex a)) HT) as (P & D & _).
+  rewrite <- P.
+  destruct (pr_diags (parse (lx_tokens (lex a)) (lx_eof_line (lex a)))) as [|d pd],
+           (pr_diags (parse (lx_tokens (lex b)) (lx_eof_line (lex a)))) as [|d' pd']; simpl in D; try discriminate D.
+  - destruct (pr_prog (parse (lx_tokens (lex a)) (lx_eof_line (lex a)))) as [prog|].
+    + destruct (Eval.run_stmts libm clock sched fuel rp prog (init_state stdin)); reflexivity.
+    + split; [reflexivity|]. split; reflexivity.
+  - split; [reflexivity|]. split; [reflexivity|exact D].
+Qed.
+
+(** "দেখাও সত্য && মিথ্যা;" and "দেখাও সত্য এবং মিথ্যা;" *)
+Definition ex_and_sym : list N :=
+  [2470;2503;2454;2494;2451;32;2488;2468;2509;2479;32;38;38;32;2478;2495;2469;2509;2479;2494;59].
+Definition ex_and_word : list N :=
+  [2470;2503;2454;2494;2451;32;2488;2468;2509;2479;32;2447;2476;2434;32;2478;2495;2469;2509;2479;2494;59].
+
+Example and_synonym_run rp stdin :
+  match run_source rp ex_and_sym stdin, run_source rp ex_and_word stdin with
+  | RFront ld pd, RFront ld' pd' => ld = [] /\ ld' = [] /\ map pd_sig pd = map pd_sig pd'
+  | r, r' => r = r'
+  end.
+Proof.
+  apply lexeme_irrelevant_run.
+  - apply sig4_same_sig. vm_compute. reflexivity.
+  - vm_compute. reflexivity.
+  - vm_compute. reflexivity.
+  - vm_compute. reflexivity.
+Qed.
+
+End LexemeRun.
